@@ -4,6 +4,7 @@ import (
 	"fmt"
 	"math/big"
 	"sort"
+	"strings"
 	"time"
 
 	"pgregory.net/rapid"
@@ -41,12 +42,15 @@ type Weights struct {
 	RoundsPool []int
 	// Hooks: the history starts with an OpHooks operation (C17 history part).
 	Hooks bool
+	// UpperPct: chance that an operation writes its (valid) signer / bidder address in upper case;
+	// bech32 allows both spellings and both denote the same account.
+	UpperPct int
 }
 
 // DefaultWeights is the general mix.
 func DefaultWeights() Weights {
 	return Weights{CreateFixed: 6, CreateBatch: 8, AddAllowed: 10, UpdateAllowed: 4, PlaceBid: 30, ModifyBid: 10,
-		Cancel: 3, Donate: 4, Block: 22, UpdateParams: 2, MsgAddAllowed: 1, PerturbPct: 12, PoorPct: 15, MaxAuctions: 4, ManyInstalmentsPct: 3, SnipePct: 10, DonateWaitingPct: 15, Reimport: 2, FaultBlock: 1}
+		Cancel: 3, Donate: 4, Block: 22, UpdateParams: 2, MsgAddAllowed: 1, PerturbPct: 12, PoorPct: 15, MaxAuctions: 4, ManyInstalmentsPct: 3, SnipePct: 10, DonateWaitingPct: 15, Reimport: 2, FaultBlock: 1, UpperPct: 3}
 }
 
 // Gen draws operations. All randomness comes from rapid draws.
@@ -278,6 +282,20 @@ var maxWire = new(big.Int).Sub(new(big.Int).Lsh(bigOne, 255), bigOne)
 // products of 2^200-sized quantities and prices) are limited to 2^255-1.
 func (g *Gen) Next(t *rapid.T, w *World, s *Snap) Op {
 	o := g.next(t, w, s)
+	if g.W.UpperPct > 0 {
+		switch o.Kind {
+		case OpCreateFixed, OpCreateBatch, OpCancel, OpPlaceBid, OpModifyBid, OpMsgAddAllowed:
+			if o.SignerStr == "" && o.Signer >= 0 && o.Signer < NumAccounts && pct(t, g.W.UpperPct, "upper-case-signer") {
+				o.SignerStr = strings.ToUpper(Addrs[o.Signer].String())
+				g.label("address-written-in-upper-case")
+			}
+		case OpAddAllowed:
+			if o.BidderStr == "" && o.Bidder >= 0 && o.Bidder < NumAccounts && pct(t, g.W.UpperPct, "upper-case-bidder") {
+				o.BidderStr = strings.ToUpper(Addrs[o.Bidder].String())
+				g.label("address-written-in-upper-case")
+			}
+		}
+	}
 	for _, f := range []*string{&o.CoinAmount, &o.SellAmount, &o.MaxBid, &o.Amount} {
 		if len(*f) > 70 { // more than 70 decimal digits: may exceed 255 bits
 			if v, ok := new(big.Int).SetString(*f, 10); ok && v.Cmp(maxWire) > 0 {
